@@ -61,6 +61,8 @@ def run(chk):
     chk.rule("R16.3", "SDF record structure: writer sections = reader offsets; no blank section; index-advance loops bounded; records in order", 8)
     chk.rule("R16.4", "XYZ: writer tokens (symbol, x, y, z) = reader token indices; header lines; blank-run tolerant split", 8)
     chk.rule("R16.5", "save/load dispatch: every saved extension has a loader of the same format; identical extension normalisation", 4)
+    chk.rule("R16.6", "serialising does not change the molecule: the fmt writers do not modify the arrays they are handed (views of the molecule's "
+                      "positions), and the Molecule.to_* methods write to none of elements / positions", 4)
     if chk.want("R16.1"):
         r16_1(chk, mol)
     if chk.want("R16.2"):
@@ -71,6 +73,8 @@ def run(chk):
         r16_4(chk, mol, xyz)
     if chk.want("R16.5"):
         r16_5(chk, mol)
+    if chk.want("R16.6"):
+        r16_6(chk, repo, mol)
     chk.assume("values fit their fixed-width fields (the property restricts coordinates to the representable range)")
     chk.assume("bond perception, numeric rounding to the written precision are not decided")
 
@@ -567,6 +571,33 @@ def r16_4(chk, mol, xyz):
     chk.ob("R16.4", XYZ, rq, "fields are split on any run of blanks (split() without a separator)", bool(split_ok))
     chk.ob("R16.4", XYZ, rq, "element and position of a line are appended in the same iteration", len(same_loop) == 1,
            found=sorted(same_loop))
+    # the coordinates returned are the parsed numbers themselves, and the header is skipped by position in the raw line list
+    rv = rev.returns[-1].value
+    it = seq_items(rv)
+    okret = False
+    if it and len(it) == 2:
+        e_ok = it[0].as_atom() and it[0].as_atom()[0] == "obj"
+        pa = it[1].as_atom()
+        p_ok = bool(pa and pa[0] == "call" and call_name(pa) in ("numpy.asarray", "numpy.array") and pa[2] and pa[2][0].as_atom()
+                    and pa[2][0].as_atom()[0] == "obj")
+        okret = bool(e_ok and p_ok)
+    chk.ob("R16.4", XYZ, rq, "the reader returns the collected elements and the parsed coordinates unchanged (no rescaling, no reordering)", okret,
+           node=rev.returns[-1].node, fingerprint="xyz-return", expected="(elements, numpy.asarray(positions))", found=str(rv)[:160])
+    lp = [l for l in rev.all_loops if l.kind == "iter" and l.iter is not None and l.iter.as_atom() and l.iter.as_atom()[0] == "sub"]
+    raw = False
+    if lp:
+        base = lp[0].iter.as_atom()[1].as_atom()
+        raw = bool(base and base[0] == "call" and call_name(base) in (".splitlines", ".split") and base[1].as_atom()[1].key() == rev.param_names[0])
+    chk.ob("R16.4", XYZ, rq, "header lines are skipped by their position in the unfiltered list of lines (the comment line may be empty)", raw,
+           fingerprint="xyz-raw-lines", expected="contents.splitlines()[2:]", found=str(lp[0].iter)[:120] if lp else None)
+    fl = [e for e in rev.events if e.kind == "call" and e.target is not None and e.target.key().endswith(".append") and "positions" in e.target.key()]
+    okf = False
+    if fl:
+        a0 = fl[0].extra["args"][0].as_atom()
+        okf = bool(a0 and call_name(a0) == "tuple" and a0[2] and a0[2][0].as_atom() and a0[2][0].as_atom()[0] == "comp"
+                   and "(slice 1 4 None)" in a0[2][0].as_atom()[2].key() and a0[2][0].as_atom()[2].key().count("*") == 0)
+    chk.ob("R16.4", XYZ, rq, "each coordinate is float(token) of tokens 1..3, unscaled", okf, fingerprint="xyz-float",
+           found=str(fl[0].extra["args"][0])[:160] if fl else None)
     q2 = "Molecule.from_xyz_string"
     ev2 = mol.ev(q2)
     ok = False
@@ -621,3 +652,24 @@ def r16_5(chk, mol):
     a, b = ext_term("Molecule.save"), ext_term("Molecule.load")
     chk.ob("R16.5", MOL, "Molecule.save", "save and load normalise the extension / fmt= argument identically",
            a.key() == b.key(), expected=str(b), found=str(a))
+
+
+# ------------------------------------------------------------------------------------------------ R16.6
+def r16_6(chk, repo, mol):
+    from ..effects import param_mutations, Effects
+    for rel, q in (("fmt/sdf.py", "to_sdf_string"), ("fmt/sdf.py", "to_atom_line"), ("fmt/sdf.py", "to_sdf_file")):
+        m = repo.module(rel)
+        if q not in m.funcs:
+            continue
+        chk.saw(rel, q)
+        mut = param_mutations(repo, m, q)
+        chk.ob("R16.6", rel, q, "the writer does not modify its arguments in place (they are views of the molecule's arrays)", not mut,
+               node=m.funcs[q], fingerprint=f"mutates:{q}", found=str({k: v[:2] for k, v in mut.items()})[:300])
+    fx = Effects(repo)
+    for meth in ("to_sdf_string", "to_xyz_string", "to_sdf_file", "to_xyz_file", "save"):
+        if f"Molecule.{meth}" not in mol.funcs:
+            continue
+        ws = [w for w in fx.method_writes(MOL, "Molecule", meth) if w.attr in ("positions", "elements")]
+        chk.saw(MOL, f"Molecule.{meth}")
+        chk.ob("R16.6", MOL, f"Molecule.{meth}", "saving writes to neither the elements nor the positions of the molecule", not ws,
+               fingerprint=f"writes:{meth}", found=[w.how for w in ws][:3])
